@@ -99,6 +99,8 @@ struct Case {
     attr_ranges: Vec<R>,
     mistakes: Vec<&'static str>,
     shape: String,
+    /// cases of one group are renderings of the same item sequence: their replies must agree
+    group: Option<u64>,
 }
 
 fn mistakes_count(rng: &mut Rng, prop: &str) -> usize {
@@ -140,6 +142,7 @@ fn make_case(recvs: &[Recv], r: &Recv, rng: &mut Rng, prop: &str) -> Option<Case
                     attr_ranges: vec![],
                     mistakes,
                     shape: format!("struct/list/{}", items.len().min(6)),
+                    group: None,
                 })
             } else {
                 let n = items.len();
@@ -159,6 +162,7 @@ fn make_case(recvs: &[Recv], r: &Recv, rng: &mut Rng, prop: &str) -> Option<Case
                     attr_ranges: vec![],
                     mistakes,
                     shape: format!("struct/meta/{}", n.min(6)),
+                    group: None,
                 })
             }
         }
@@ -186,6 +190,7 @@ fn make_case(recvs: &[Recv], r: &Recv, rng: &mut Rng, prop: &str) -> Option<Case
                 attr_ranges: vec![],
                 mistakes,
                 shape: "enum/meta".into(),
+                group: None,
             })
         }
         (Shape::Struct(_), tr) => {
@@ -222,18 +227,297 @@ fn make_case(recvs: &[Recv], r: &Recv, rng: &mut Rng, prop: &str) -> Option<Case
                 attr_ranges: rendered.attrs,
                 mistakes,
                 shape: format!("element/{:?}/{}", tr, attrs.len().min(5)),
+                group: None,
             })
         }
         _ => None,
     }
 }
 
+type CaseFn = fn(&[Recv], &Recv, &mut Rng, &str, usize) -> Vec<Case>;
+
+struct Plan {
+    tag: &'static str,
+    profile: Profile,
+    programs: (u64, u64),
+    per_program: (u64, u64),
+    cases: CaseFn,
+    min_nontrivial: u64,
+    /// aspects of the generic judge that count as violations of the property being run
+    adopt: &'static [&'static str],
+}
+
+fn general_cases(recvs: &[Recv], r: &Recv, rng: &mut Rng, prop: &str, _iter: usize) -> Vec<Case> {
+    make_case(recvs, r, rng, prop).into_iter().collect()
+}
+
 fn run_general(args: &Args, prop: &'static str) -> i32 {
+    run_corpus(
+        args,
+        prop,
+        Plan {
+            tag: "general",
+            profile: profile_general(),
+            programs: (224, 1400),
+            per_program: (80, 400),
+            cases: general_cases,
+            min_nontrivial: 200,
+            adopt: &[],
+        },
+    )
+}
+
+pub fn profile_element() -> Profile {
+    Profile {
+        name: "element",
+        traits: ELEMENT_TRAITS.to_vec(),
+        p_enum: 0,
+        p_nested: 2,
+        magic: false,
+        supports: false,
+        forward_attrs: true,
+        flatten: true,
+        options: true,
+        body_recv: false,
+        max_depth: 1,
+    }
+}
+
+pub fn profile_enum() -> Profile {
+    Profile {
+        name: "enum",
+        traits: vec![Trait::Meta],
+        p_enum: 10,
+        p_nested: 3,
+        magic: false,
+        supports: false,
+        forward_attrs: false,
+        flatten: false,
+        options: true,
+        body_recv: false,
+        max_depth: 1,
+    }
+}
+
+/// C08: one item sequence, its single-attribute form and several partitions into attributes
+fn partition_cases(recvs: &[Recv], r: &Recv, rng: &mut Rng, _prop: &str, iter: usize) -> Vec<Case> {
+    let it = Interp { recvs };
+    let mut ig = InputGen::new(recvs);
+    let mut items = ig.struct_items(rng, r, 0);
+    let mut mistakes = vec![];
+    for _ in 0..rng.weighted(&[5, 2, 1, 1]) {
+        if let Some(k) = ig.inject(rng, &mut items, r, 0) {
+            mistakes.push(k);
+        }
+    }
+    let mut out = vec![];
+    let n_parts = 1 + rng.below(6);
+    for k in 0..=n_parts {
+        let attrs = if k == 0 {
+            // the single-attribute form (nothing to read when the receiver names no attribute)
+            if r.attr_names.is_empty() {
+                vec![]
+            } else {
+                vec![Attr {
+                    name: r.attr_names[0].clone(),
+                    kind: AttrKind::List(items.clone(), 0),
+                }]
+            }
+        } else {
+            let pieces = rng.range(1, 5);
+            partition(rng, r, &items, pieces)
+        };
+        let tail = element_tail(rng, r.tr);
+        let rendered = render_element(rng, r.tr, &attrs, &tail);
+        let texts: Vec<String> = rendered.attrs.iter().map(|(a, b)| rendered.text[*a..*b].to_string()).collect();
+        let ev = it.element(r, &attrs, &texts);
+        out.push(Case {
+            entry: r.tr.entry(),
+            src: rendered.text.clone(),
+            expected: ev.outcome,
+            ranges: rendered.ranges,
+            attr_ranges: rendered.attrs,
+            mistakes: mistakes.clone(),
+            shape: format!("partition/{:?}/{}attrs/{}fwd", r.tr, attrs.len().min(6), ev.forwarded.len().min(3)),
+            group: Some(iter as u64),
+        });
+    }
+    out
+}
+
+/// C09: the grid of every variant name (plus near-miss, skipped and unknown names) x every form
+fn enum_grid_cases(recvs: &[Recv], r: &Recv, rng: &mut Rng, _prop: &str, iter: usize) -> Vec<Case> {
+    let Shape::Enum(vs) = &r.shape else { return general_cases(recvs, r, rng, "C09", iter) };
+    let it = Interp { recvs };
+    let mut ig = InputGen::new(recvs);
+    let mut names: Vec<(String, Option<&Variant>)> = vs.iter().map(|v| (variant_name(r, v), Some(v))).collect();
+    let base = names[iter % names.len()].0.clone();
+    names.push((near_miss(rng, &base), None));
+    names.push(("zzz".to_string(), None));
+    names.push((vs[0].rust.clone(), None)); // the Rust spelling, usually not the effective name
+    names.retain(|(n, _)| addressable(n));
+    if names.is_empty() {
+        return vec![];
+    }
+    const FORMS: usize = 19;
+    let (name, var) = names[(iter / FORMS) % names.len()].clone();
+    let form = iter % FORMS;
+    let e = "choice";
+    let mut direct: Option<(&'static str, String, Outcome)> = None;
+    let item: Option<Item> = match form {
+        0 => Some(nv(&mut ig.ids, e, str_lit(rng, &name))),
+        1 => {
+            let w = word(&mut ig.ids, &name);
+            Some(list(&mut ig.ids, e, vec![w]))
+        }
+        2..=6 => {
+            let lit = match form {
+                2 => int_lit(rng, 5),
+                3 => str_lit(rng, "s"),
+                4 => Lit::Bool(true),
+                5 => Lit::Char('c'),
+                _ => Lit::Float { text: "1.5".into() },
+            };
+            let inner = nv(&mut ig.ids, &name, lit);
+            Some(list(&mut ig.ids, e, vec![inner]))
+        }
+        7 => {
+            // list content: what the variant wants if it is a struct / newtype variant, else `a = 1`
+            let content = match var.map(|v| &v.body) {
+                Some(VBody::Struct(fs)) => ig.fields_items(rng, r, fs, 1),
+                Some(VBody::Newtype(t)) => {
+                    let inner = ig.item_for(rng, &name, t, 1);
+                    match inner.kind {
+                        Kind::List(l) => l,
+                        _ => vec![inner],
+                    }
+                }
+                _ => vec![nv(&mut ig.ids, "a", int_lit(rng, 1))],
+            };
+            let inner = list(&mut ig.ids, &name, content);
+            Some(list(&mut ig.ids, e, vec![inner]))
+        }
+        8 => {
+            let a = word(&mut ig.ids, &name);
+            let b = word(&mut ig.ids, "other");
+            Some(list(&mut ig.ids, e, vec![a, b]))
+        }
+        9 => Some(list(&mut ig.ids, e, vec![])),
+        10 => {
+            let a = word(&mut ig.ids, &name);
+            let b = word(&mut ig.ids, &name);
+            let c = nv(&mut ig.ids, &name, int_lit(rng, 1));
+            Some(list(&mut ig.ids, e, vec![a, b, c]))
+        }
+        11 => {
+            let l = literal(&mut ig.ids, str_lit(rng, &name));
+            Some(list(&mut ig.ids, e, vec![l]))
+        }
+        12 => Some(nv(&mut ig.ids, e, int_lit(rng, 5))),
+        13 => Some(nv(&mut ig.ids, e, Lit::Bool(true))),
+        14 => Some(word(&mut ig.ids, e)),
+        15 => Some(nv(&mut ig.ids, e, Lit::Expr(name.clone()))),
+        16 => {
+            direct = Some((
+                "from_string",
+                name.clone(),
+                match it.enum_from_string(r, &name) {
+                    Ok(v) => Outcome::Ok(v),
+                    Err(l) => Outcome::Err(l),
+                },
+            ));
+            None
+        }
+        17 => {
+            direct = Some((
+                "from_word",
+                String::new(),
+                match it.from_word_value(r) {
+                    Some(v) => Outcome::Ok(v),
+                    None => Outcome::Err(vec![Leaf {
+                        kind: LeafKind::BadValue,
+                        path: vec![],
+                        at: Where::Nowhere,
+                        name: String::new(),
+                        alts: vec![],
+                    }]),
+                },
+            ));
+            None
+        }
+        _ => {
+            let v = if r.from_none { json!({"some": it.from_none_value(r)}) } else { Value::Null };
+            direct = Some(("from_none", String::new(), Outcome::Ok(v)));
+            None
+        }
+    };
+    let shape = format!("enum-grid/form{form}/{}", match var.map(|v| (&v.body, v.skip)) {
+        Some((_, true)) => "skipped",
+        Some((VBody::Unit, _)) => "unit",
+        Some((VBody::Newtype(_), _)) => "newtype",
+        Some((VBody::Struct(_), _)) => "struct",
+        None => "not-a-variant",
+    });
+    if let Some((entry, src, expected)) = direct {
+        return vec![Case {
+            entry,
+            src,
+            expected,
+            ranges: Ranges::default(),
+            attr_ranges: vec![],
+            mistakes: vec![],
+            shape,
+            group: None,
+        }];
+    }
+    let item = item.unwrap();
+    let mut ranges = Ranges::default();
+    let mut src = String::new();
+    render_item(&item, &mut src, &mut ranges, rng.below(6) as u8);
+    let expected = match it.recv_from_meta(r, &item) {
+        Ok(v) => Outcome::Ok(v),
+        Err(l) => Outcome::Err(l),
+    };
+    vec![Case {
+        entry: "from_meta",
+        src,
+        expected,
+        ranges,
+        attr_ranges: vec![],
+        mistakes: vec![],
+        shape,
+        group: None,
+    }]
+}
+
+/// reply with everything that legitimately differs between renderings removed
+fn stripped(reply: &Value) -> String {
+    if let Some(ok) = reply.get("ok") {
+        let mut v = ok.clone();
+        if let Some(o) = v.as_object_mut() {
+            for (_, inner) in o.iter_mut() {
+                if let Some(m) = inner.as_object_mut() {
+                    m.remove("@attrs");
+                }
+            }
+        }
+        return format!("ok:{v}");
+    }
+    if let Some(e) = reply.get("err") {
+        let leaves: Vec<String> = e["leaves"].as_array().cloned().unwrap_or_default().iter().map(|l| l["msg"].as_str().unwrap_or("").to_string()).collect();
+        return format!("err:{leaves:?}");
+    }
+    reply.to_string()
+}
+
+fn run_corpus(args: &Args, prop: &'static str, plan: Plan) -> i32 {
     let started = Instant::now();
-    let programs = args.budget(112, 1400) as usize;
-    let per_program = args.budget(80, 400) as usize;
+    let programs = args.budget(plan.programs.0, plan.programs.1) as usize;
+    let per_program = args.budget(plan.per_program.0, plan.per_program.1) as usize;
     let shards = 16;
-    let built = build_corpus("general", args.seed, profile_general(), programs, shards, false);
+    let case_fn = plan.cases;
+    let adopt = plan.adopt;
+    let built = build_corpus(plan.tag, args.seed, plan.profile.clone(), programs, shards, false);
     let mut total = Collector::new();
     total.max_samples = 8;
     // compile failures are C20's subject; here they only shrink the corpus
@@ -272,8 +556,9 @@ fn run_general(args: &Args, prop: &'static str) -> i32 {
                         c.count(&format!("programs.{:?}{}", r.tr, if r.is_enum() { "-enum" } else { "" }));
                         let mut rng = Rng::for_stream(seed, 1000 + *id as u64, 0);
                         let mut rsrc: Option<String> = None;
-                        for _ in 0..per_program {
-                            let Some(case) = make_case(recvs, r, &mut rng, prop) else { continue };
+                        for iter in 0..per_program {
+                          let mut group_replies: Vec<(u64, String, String)> = vec![];
+                          for case in case_fn(recvs, r, &mut rng, prop, iter) {
                             c.eval();
                             let reply = match drv.call(*id, case.entry, &case.src) {
                                 drive::Reply::Value(v) => v,
@@ -294,14 +579,17 @@ fn run_general(args: &Args, prop: &'static str) -> i32 {
                                 c.discarded += 1;
                                 continue;
                             }
+                            if let Some(g) = case.group {
+                                group_replies.push((g, stripped(&reply), case.src.clone()));
+                            }
                             let j = judge(&case.expected, &obs, &case.ranges, &case.attr_ranges, true);
                             for f in &j.findings {
-                                if f.prop != prop {
+                                if f.prop != prop && !adopt.contains(&f.prop) {
                                     c.count(&format!("other_aspect.{}", f.prop));
                                     continue;
                                 }
                                 let src = rsrc.get_or_insert_with(|| recv_source(recvs, *id)).clone();
-                                c.violation(format!("{}:{}", f.prop, f.class), format!("{} on `{}`: {}", r.name(), case.src, f.what), witness(&src, case.entry, &case.src, &case.expected, &reply));
+                                c.violation(format!("{}:{}", prop, f.class), format!("{} on `{}`: {}", r.name(), case.src, f.what), witness(&src, case.entry, &case.src, &case.expected, &reply));
                             }
                             let ok = j.expected_ok;
                             c.count(if ok { "inputs.mistake_free" } else { "inputs.with_mistakes" });
@@ -335,6 +623,14 @@ fn run_general(args: &Args, prop: &'static str) -> i32 {
                                     c.sample(|| witness(&src, case.entry, &case.src, &case.expected, &reply));
                                 }
                             }
+                          }
+                          // renderings of one item sequence must give the identical value or identical errors
+                          for i in 1..group_replies.len() {
+                              if group_replies[i].0 == group_replies[0].0 && group_replies[i].1 != group_replies[0].1 {
+                                  let src = rsrc.get_or_insert_with(|| recv_source(recvs, *id)).clone();
+                                  c.violation(format!("{prop}:partition-changes-result"), format!("{}: `{}` gives {} but the single-attribute form `{}` gives {}", r.name(), group_replies[i].2, group_replies[i].1, group_replies[0].2, group_replies[0].1), json!({"receiver": src, "input": group_replies[i].2, "base_input": group_replies[0].2}));
+                              }
+                          }
                         }
                     }
                     c
@@ -363,7 +659,7 @@ fn run_general(args: &Args, prop: &'static str) -> i32 {
                 "the reference interpreter (vf/corpus/src/interp.rs) encodes the documented semantics (DESIGN Appendix A); it never reads darling's output".into(),
                 "rustc compiles the generated crates faithfully; programs that fail to compile are excluded here and reported by C20".into(),
             ],
-            min_nontrivial: 200,
+            min_nontrivial: plan.min_nontrivial,
             exhaustive: None,
             extra,
         },
@@ -486,8 +782,62 @@ fn main() {
         "C01" => run_general(&args, "C01"),
         "C02" => run_general(&args, "C02"),
         "C03" => run_general(&args, "C03"),
-        "C07" => run_general(&args, "C07"),
+        "C07" => match args.extra.get("profile").map(|s| s.as_str()) {
+            Some("element") => run_corpus(
+                &args,
+                "C07",
+                Plan {
+                    tag: "element",
+                    profile: profile_element(),
+                    programs: (160, 1200),
+                    per_program: (30, 120),
+                    cases: partition_cases,
+                    min_nontrivial: 200,
+                    adopt: &[],
+                },
+            ),
+            Some("enum") => run_corpus(
+                &args,
+                "C07",
+                Plan {
+                    tag: "enum",
+                    profile: profile_enum(),
+                    programs: (96, 900),
+                    per_program: (19 * 9, 19 * 9 * 2),
+                    cases: enum_grid_cases,
+                    min_nontrivial: 200,
+                    adopt: &[],
+                },
+            ),
+            _ => run_general(&args, "C07"),
+        },
         "C17" => run_general(&args, "C17"),
+        "C08" => run_corpus(
+            &args,
+            "C08",
+            Plan {
+                tag: "element",
+                profile: profile_element(),
+                programs: (160, 1200),
+                per_program: (30, 120),
+                cases: partition_cases,
+                min_nontrivial: 200,
+                adopt: &["C01", "C02"],
+            },
+        ),
+        "C09" => run_corpus(
+            &args,
+            "C09",
+            Plan {
+                tag: "enum",
+                profile: profile_enum(),
+                programs: (96, 900),
+                per_program: (19 * 9, 19 * 9 * 2),
+                cases: enum_grid_cases,
+                min_nontrivial: 200,
+                adopt: &["C01", "C02"],
+            },
+        ),
         other => vfcommon::die(&format!("corpus: no monitor for {other}")),
     };
     std::process::exit(code);
